@@ -12,7 +12,7 @@ CASES = [
     ("F1", "U", "cap2", "C10", {}), ("F2", "U", "cap2", "C10", {}), ("F3", "U", "cap2", "C10", {}),
     ("F4", "U", "cap1_ttl", "C10", {}),
     # four odd counters at an aging step need a sample period of 4 with three keys
-    ("F8", "U", "cap2", "C08", {"Period": 4}),
+    ("F8", "U", "cap2", "C08", {"Period": 4}), ("F13", "U", "cap_weight2", "C15", {}),
     ("F5", "S", "s_cap1", "C10", {}), ("F6", "S", "s_cap2_tti", "C03", {}), ("F9", "S", "s_cap2_w", "C10", {}),
     ("F10", "S", "s_cap1_ttl", "C03", {}), ("F12", "S", "s_cap1_ttl", "C03", {"depth": 7}), ("F7", "S", "s_cap1", "C10", {}),
 ]
